@@ -124,6 +124,14 @@ func c06Cases(seed int64, n int) []c06Case {
 			out = append(out, c06Case{Name: "dbx", GUIDBE: dbg, Attrs: 0x27, Payload: refesl.Encode(lists), PKind: "database-object", Key: k % 4, Serial: int64(980 + k)})
 		}
 	}
+	// long variable names (the name enters the signed buffer in full, whatever its length)
+	for k, nl := range []int{255, 256, 511, 512, 513, 600, 1500} {
+		out = append(out, c06Case{Name: strings.Repeat("LongVariableName", nl/16+1)[:nl], GUIDBE: pkg, Attrs: 0x27, Payload: c12db(1, 30+k).Bytes(), PKind: "sha256-lists", Key: k % 4, Serial: int64(970 + k)})
+	}
+	// a payload that is itself a signed update (made for another variable with the same key):
+	// it is payload like any other, the new update is signed now, for this variable
+	out = append(out, c06Case{Name: "db", GUIDBE: dbg, Attrs: 0x27, PKind: "prepared-update-as-payload", Key: 2, Serial: 962, Via: "WriteSignedUpdate"},
+		c06Case{Name: "dbx", GUIDBE: dbg, Attrs: 0x27, PKind: "prepared-update-as-payload", Key: 2, Serial: 962})
 	// several updates of one variable in quick succession through one store handle
 	for k := 0; k < 4; k++ {
 		out = append(out, c06Case{Name: "db", GUIDBE: dbg, Attrs: 0x27, Payload: c12db(1+k%2, 60+k).Bytes(), PKind: "sha256-lists", Key: 0, Serial: 960, Via: "WriteSignedUpdate"})
@@ -160,6 +168,13 @@ func c06ChildMain() {
 			}
 		}
 		res := &c06Result{Case: c, Zone: zone, ZoneOff: off}
+		if c.PKind == "prepared-update-as-payload" {
+			// made here, with the signer of this case, for another variable
+			if _, pm, perr := signature.SignEFIVariable(efivar.KEK, c12db(2, 77), k.Priv, cert); perr == nil {
+				c.Payload = pm.Bytes()
+				res.Case.Payload = c.Payload
+			}
+		}
 		var signer crypto.Signer = k.Priv
 		if ci == 1 || ci == len(cases)-2 {
 			// a signer that answers only after the next full second has begun (a slow token)
